@@ -1,9 +1,11 @@
 PROPERTY = "C03"
 LEVEL = "proof"
-LEAN_MODULES = ["CifModel.Props.C03", "CifModel.Props.C03Extra", "CifModel.Lemmas.ParserTop", "CifModel.Lemmas.ParserQuiet", "CifModel.Lemmas.ParserConsistent", "CifModel.Lemmas.ParserStore", "CifModel.Lemmas.ParserDetProd", "CifModel.Lemmas.ParserDetLex", "CifModel.Lemmas.ParserDet", "CifModel.Props.ReviewC03"]
+LEAN_MODULES = ["CifModel.Props.C03", "CifModel.Props.C03Extra", "CifModel.Lemmas.ParserTop", "CifModel.Lemmas.ParserQuiet", "CifModel.Lemmas.ParserConsistent", "CifModel.Lemmas.ParserRect", "CifModel.Lemmas.ParserStore", "CifModel.Props.C03Store", "CifModel.Model.ParserTrace", "CifModel.Model.ParserStoreOps", "CifModel.Lemmas.ParserTrace", "CifModel.Lemmas.ParserValues", "CifModel.Lemmas.ParserStoreOps", "CifModel.Lemmas.ParserTraceInv", "CifModel.Lemmas.ParserDetProd", "CifModel.Lemmas.ParserDetLex", "CifModel.Lemmas.ParserDet", "CifModel.Props.ReviewC03"]
 REQUIRED = ["CifModel.C03_total", "CifModel.C03_clamp", "CifModel.C03_report_site", "CifModel.C03_prefix_determinism", "CifModel.C03_result",
             "CifModel.C03_reported_partial", "CifModel.C03_reported", "CifModel.C03_reported_full", "CifModel.Model.Parser.parseInternal_die", "CifModel.C03_consistent_after", "CifModel.C03_consistent_after_fresh",
-            "CifModel.C03_consistent_iff", "CifModel.C03_consistent_container", "CifModel.Model.Parser.parse_ok", "CifModel.Model.Parser.updIn_ok",
+            "CifModel.C03_consistent_iff", "CifModel.C03_consistent_container", "CifModel.C03_packets_rectangular", "CifModel.C03_rectangular_iff", "CifModel.C03_rectangular_container", "CifModel.Model.Parser.parse_okR", "CifModel.Model.Parser.packetsLoop_presR",
+            "CifModel.C03_parser_trace", "CifModel.C03_store_ops_documented", "CifModel.C03_store_step_mkBlock", "CifModel.C03_parser_store_refines_partial", "CifModel.C03_consistent_after_every_call", "CifModel.C03_set_value_calls_documented", "CifModel.C03_add_packet_calls_documented", "CifModel.C03_create_calls_documented", "CifModel.Model.Parser.trace_prefix_okR", "CifModel.Model.Parser.trace_calls_docOk",
+            "CifModel.Model.Parser.parseT_out", "CifModel.Model.Parser.parse_replay", "CifModel.Model.Parser.storeTrace_wf", "CifModel.Model.Parser.setValueC_spec", "CifModel.Model.Parser.addPkt_spec", "CifModel.Model.Parser.parse_ok", "CifModel.Model.Parser.updIn_ok",
             "CifModel.C03_die_is_first", "CifModel.C03_accept_all", "CifModel.C03_codes_nonzero",
             "CifModel.C03_fuel_suffices", "CifModel.C03_nofuel_only_from_callback", "CifModel.C03_callback_lines",
             "CifModel.C03_scanner_lines_monotone",
@@ -43,12 +45,42 @@ PARTIAL = [
     "(C03_nofuel_only_from_callback)",
     "C03_callback_lines is proved (Props/C03Extra.lean): every report of every parse has line >= 1, for every policy, completed or aborted; "
     "C03_scanner_lines_monotone is the scanner-level form",
-    "C03_consistent_after is proved about the model's target (the documented data model, CifModel.Cif): block codes / frame codes "
-    "distinct after normalisation, every normalised item name once per container, at most one scalar loop, at most one packet in a "
-    "scalar loop — after every parse, also an aborted one, from every consistent initial target.  NOT in the invariant: that every "
-    "packet has as many values as its loop has names (needs the column bookkeeping of parse_loop_packets).  That the REAL store is "
-    "consistent after a parse is observed, not proved: the executor walks, writes, modifies and destroys the real CIF after every "
-    "parse under ASan/UBSan, and its dump is compared with the model's.",
+    "C03_consistent_after / C03_packets_rectangular are proved about the model's target (the documented data model, CifModel.Cif): block codes / "
+    "frame codes distinct after normalisation, every normalised item name once per container, at most one scalar loop, at most one packet "
+    "in a scalar loop, AND (C03_packets_rectangular, Lemmas/ParserRect: the column bookkeeping of parse_loop_packets with dropped duplicate / "
+    "invalid header names, the wrap of the column index and the CIF_PARTIAL_PACKET padding) every packet of every loop has exactly as many "
+    "values as its loop has names — after every parse, also an aborted one, from every consistent (and rectangular) initial target.  "
+    "That the REAL store holds this content is observed: the executor walks, writes, modifies and destroys the real CIF after every parse "
+    "under ASan/UBSan, and its dump is compared with the model's.",
+    "parser model -> store model (Props/C03Store.lean): the real parser calls the store API; Model/ParserTrace.lean is the parser model with "
+    "every successful mutating call recorded (cif_create_block(_internal), cif_container_create_frame(_internal), cif_container_set_value, "
+    "cif_container_create_loop, cif_loop_add_packet, cif_container_prune).  PROVED for every parse (any policy, input, options, initial "
+    "target, also aborted): forgetting the trace gives Model.Parser.parse exactly and the target is the replay of the recorded calls "
+    "(C03_parser_trace); the effect of a recorded set_value / add_packet / create_block / create_frame is the DOCUMENTED function of "
+    "Spec/DataModel on consistent rectangular containers (C03_store_ops_documented — uses C03_packets_rectangular and uniqueness of names); "
+    "the target is consistent and rectangular after EVERY recorded call, not only at the end (C03_consistent_after_every_call: every prefix "
+    "of the trace; Lemmas/ParserTraceInv: the Hoare logic of the consistency proof once more for the instrumented productions), so every "
+    "cif_container_set_value of every parse IS the documented function in the state in which it is made (C03_set_value_calls_documented), "
+    "every cif_loop_add_packet is a SUCCESSFUL call of Loop.specAddPacket on the last loop of its container with the packet names -> values "
+    "(C03_add_packet_calls_documented), every block / save-frame creation a successful call of specCreateBlock / Container.specCreateFrame "
+    "(C03_create_calls_documented; validation waived for the lenient creations) — Lemmas/ParserTraceInv.trace_calls_docOk.  For "
+    "cif_container_create_loop and cif_container_prune Spec/DataModel has no function; their premises (names not in use, pairwise distinct, "
+    "not empty) are part of SOp.docOk; "
+    "block creation composes with the store model's createBlock (C03_store_step_mkBlock, via C04_refines_create_block).  NOT PROVED: "
+    "C03_parser_store_refines_full (a def) — the recorded calls translated into a Store.Op history (Model/ParserStoreOps.storeOps) and run "
+    "through Store.step from a new CIF all return CIF_OK and end in a store whose abstraction Store.abs IS the parser model's CIF.  It is "
+    "EXECUTED by the model driver on every request of family parse with a target (fresh: about 6 100 per quick run; pre-filled, the "
+    "history being cifOps(pre-existing content) ++ trace: about 1 250; every recovery path, aborted parses; exact equality incl. "
+    "enumeration orders; any failure is a model/implementation disagreement); lenient creations (invalid codes accepted after the "
+    "report, the anonymous block) are not expressible as Store.Op and are skipped there (about 430 per run).  What a proof "
+    "needs: the lift of the container-local refinement lemmas of C04 (absLoops d cid) to the tree Store.abs at a path (save frames have "
+    "unique parents), the transaction brackets of the API wrappers incl. set_value's add_scalar composition, and the handle tables of "
+    "Store.step; uniqueness of block ids / block names, which C04's Inv does not contain",
+    "family parse observes the store calls of the REAL parser (function-like macros around #include \"parser.c\" in harness/x_parse.c: "
+    "calls that return CIF_OK) as six counters and as the SEQUENCE of calls with a digest of the name argument (length of the code / "
+    "data name, number of loop names) and compares both with the model's trace on every request; values and container arguments are "
+    "observed only through the final dump.  Price: a rewrite of parser.c that changes the sequence of successful store calls without "
+    "changing the content is reported as a broken correspondence (no-failing-input-found)",
     "memory safety, undefined behaviour and byte decoding of the C are runtime-observed only (families parse and parsebytes).",
 ]
 LEVEL_TEXT = ("Theorems about the executable integrated parser model (every input string, every option record, every callback "
